@@ -177,6 +177,8 @@ def _match_known(known, prop, hname, cfg, v):
             continue
         if k.get("harness") and k["harness"] != hname:
             continue
+        if k.get("harness_regex") and not re.search(k["harness_regex"], hname):
+            continue
         if k.get("label_regex") and not re.search(k["label_regex"], v["label"]):
             continue
         if k.get("site_regex") and not re.search(k["site_regex"], v.get("site") or ""):
